@@ -323,6 +323,17 @@ func (x *c13) runUDP(tier string, caseNo int) {
 		return
 	}
 	x.conn = conn
+	if caseNo%2 == 0 {
+		// an empty datagram reaches the client's socket (from the server's address or from a
+		// stranger): the socket goes on working - every later step depends on the client still
+		// reading what the server sends
+		from := x.srv.Addr
+		if caseNo%4 == 0 {
+			from = &net.UDPAddr{IP: net.IPv4(10, 9, 9, 9).To4(), Port: 9}
+		}
+		x.rc.Conn.Inject(nil, from)
+		x.rec.FP("empty-datagram-to-the-client-socket/stranger=%v", caseNo%4 == 0)
+	}
 	seq := 0
 	var wmu sync.Mutex
 	write := func(i int) error {
